@@ -251,3 +251,14 @@ def border_relabel(ck, prog):
 def run(ck, prog):
     _run_pre_border(ck, prog)
     border_relabel(ck, prog)
+
+
+# ------------------------------------------------------------------ generic: rows/cols (outer/inner) mix-up of locally allocated buffers
+_run_pre_dimension = run
+DIMENSION_FILES = ['src/algorithm/neighbour/cover_tree.rs', 'src/algorithm/neighbour/linear_search.rs', 'src/cluster/dbscan.rs']
+
+
+def run(ck, prog):
+    _run_pre_dimension(ck, prog)
+    from sa import dimension
+    dimension.run_rule(ck, prog, set(DIMENSION_FILES))
